@@ -383,9 +383,8 @@ def afterInit (pt : Jac F) (coeffs : List (List F)) (zpows : List F) : Option (J
     (outerBody coeffs zpows pt.x)
   tailPart pt pt.y pt.z zpows tmp mapvals
 
-set_option maxHeartbeats 4000 in
-/-- the generated definition consists of exactly the pieces restated in this file (the heartbeat limit only
-    makes the failure quick when the generated text has changed) -/
+/-- the generated definition consists of exactly the pieces restated in this file: after unfolding the
+    names the two sides are the same term (up to beta / the `match` on the coordinate triple) -/
 theorem evalIso_struct (pt : Jac F) (coeffs : List (List F)) : I.evalIso pt coeffs = (do
     let zpows := List.replicate 15 (0 : F)
     let zpows ← I.setIdx zpows 0 pt.z
@@ -395,7 +394,9 @@ theorem evalIso_struct (pt : Jac F) (coeffs : List (List F)) : I.evalIso pt coef
     let zpows ← I.setIdx zpows 1 x2
     let x3 ← zpows[1]?
     let zpows := zpows.set 1 (sq x3)
-    afterInit pt coeffs zpows) := rfl
+    afterInit pt coeffs zpows) := by
+  delta I.evalIso afterInit tailPart outerBody scaleBody hornerBody zpBody
+  with_reducible rfl
 
 theorem tailPart_eq (pt : Jac F) (y z w : F) (zp tmp : List F) (m0 m1 m2 m3 : F) (hw : zp[0]? = some w)
     (ht : tmp.length = 16) :
